@@ -159,13 +159,21 @@ def run_directed(args):
            "states": (ref["dfa"] or "").count("->"), "sample": None}
     if ref["exit"] != 0 or ref_res["timeout"]:
         return out
+    looked_up = sorted(a[len("getenv:"):] for a in out["ambient"] if a.startswith("getenv:"))
     for k in range(nseeds):
-        vec = seam_vector(rng.sub("vec/%d" % k))
+        vr = rng.sub("vec/%d" % k)
+        vec = seam_vector(vr)
+        # discovery feeds the directed pass: every environment name the binary was seen to look up is given a value
+        for name in looked_up:
+            if vr.chance(2, 3):
+                vec["env"][name] = vr.choice(ENV_VALUES)
         res = proc.run_case(case_for(g["text"], shell, vec), timeout=60)
         out["runs"] += 1
         out["vectors"] += 1
         for a, n in ambient_calls(res["events"]).items():
             out["ambient"][a] = out["ambient"].get(a, 0) + n
+            if a.startswith("getenv:") and a[len("getenv:"):] not in looked_up:
+                looked_up = sorted(looked_up + [a[len("getenv:"):]])
         got = outputs_of(res)
         d = diff_outputs(ref, got)
         if out["sample"] is None:
@@ -255,10 +263,10 @@ def harness_matches_binary(g, shell):
 
 def reproduce(v):
     if v["mode"] == "directed":
-        ref = outputs_of(proc.run_case(case_for(v["grammar"], v["shell"], seam_vector(None, canonical=True)), timeout=60))
+        ref = outputs_of(proc.run_case(case_for(v["grammar"], v["shell"], v.get("ref_vector") or seam_vector(None, canonical=True)), timeout=60))
         got = outputs_of(proc.run_case(case_for(v["grammar"], v["shell"], v["vector"]), timeout=60))
         d = diff_outputs(ref, got)
-        return ("output-depends-on-ambient-state" if d else None), {"differs": d}
+        return (v["class"] if d else None), {"differs": d}
     if v["mode"] == "history":
         canonical = seam_vector(None, canonical=True)
         ops = [tuple(o) for o in v["ops"]]
@@ -290,12 +298,16 @@ def minimise(v):
         for k in ("env", "heappad", "heapfrag", "stack_kb", "rand", "time", "timestep", "pid", "host"):
             cand = json.loads(json.dumps(cur))
             cand["vector"][k] = canonical[k]
+            if "ref_vector" in cand:
+                cand["ref_vector"] = json.loads(json.dumps(cand["vector"]))
             if cand["vector"] != cur["vector"] and holds(cand):
                 cur = cand
         # environment entries one by one
         for name in list(cur["vector"]["env"]):
             cand = json.loads(json.dumps(cur))
             del cand["vector"]["env"][name]
+            if "ref_vector" in cand:
+                cand["ref_vector"] = json.loads(json.dumps(cand["vector"]))
             if holds(cand):
                 cur = cand
         # grammar statements
@@ -341,17 +353,26 @@ def replay(payload):
 # ------------------------------------------------------------------ determinism of the machinery itself
 
 def determinism_probe(grammars, seed):
-    """Same seed twice -> same seam vectors, same event logs, same outputs."""
+    """Same seed twice -> same seam vectors, same event logs, same outputs.  Returns (harness_bad, violations): outputs
+    that differ although every seam was held equal are a violation of C10 itself (something outside the simulator's
+    control -- /dev/urandom, the scratch directory's name, a racing thread -- reaches the output); logs that differ
+    while the outputs agree only mean the simulator does not replay."""
     rng = Rng(seed, "c10/determinism")
-    g = grammars[0]
     bad = 0
-    for k in range(3):
-        vec = seam_vector(rng.sub("v%d" % k))
-        a = proc.run_case(case_for(g["text"], "bash", vec))
-        b = proc.run_case(case_for(g["text"], "bash", vec))
-        if (a["exit"], a["files_after"], a["raw_log"], a["stderr"]) != (b["exit"], b["files_after"], b["raw_log"], b["stderr"]):
-            bad += 1
-    return bad
+    violations = []
+    for gi, g in enumerate(grammars[:2]):
+        for k in range(2):
+            vec = seam_vector(rng.sub("v%d/%d" % (gi, k)))
+            sh = rng.choice(gram.SHELLS)
+            a = proc.run_case(case_for(g["text"], sh, vec))
+            b = proc.run_case(case_for(g["text"], sh, vec))
+            d = diff_outputs(outputs_of(a), outputs_of(b))
+            if d:
+                violations.append({"class": "output-differs-between-identical-runs", "key": "identical:" + "+".join(d), "mode": "directed",
+                                   "grammar": g["text"], "grammar_name": g["name"], "shell": sh, "vector": vec, "ref_vector": vec, "differs": d})
+            elif (a["exit"], a["raw_log"], a["stderr"]) != (b["exit"], b["raw_log"], b["stderr"]):
+                bad += 1
+    return bad, violations
 
 
 # ------------------------------------------------------------------ tier driver
@@ -360,8 +381,9 @@ def main(seed, tier):
     t = common.Timer()
     build_harness()
     grammars = make_grammars(seed, tier)
-    if determinism_probe(grammars, seed):
-        raise HarnessError("C10 determinism self-check failed")
+    det_bad, det_violations = determinism_probe(grammars, seed)
+    if det_bad:
+        raise HarnessError("C10 determinism self-check failed: identical plans gave different event logs")
     quick = tier == "quick"
     nseeds = 6 if quick else 48
     jobs = []
@@ -372,7 +394,7 @@ def main(seed, tier):
             n = nseeds if not g["name"].endswith("mygit.usage") else max(2, nseeds // 3)
             jobs.append((g, sh, seed, n))
     runs = 0
-    violations = []
+    violations = list(det_violations)
     ambient = {}
     accepted = {}
     samples = []
